@@ -98,12 +98,15 @@ func Run(opts *Options) (int, error) {
 	var chunkList *ChunkList
 	var itemIndex int32
 	header := []string{}
+	// The item builders below run inside ChunkList.Push, i.e. with the list
+	// locked. They only flag a new header line; the event is raised by the
+	// pusher once the lock is released (see below).
+	headerUpdated := util.NewAtomicBool(false)
 	if opts.WithNth == nil {
 		chunkList = NewChunkList(cache, func(item *Item, data []byte) bool {
 			if len(header) < opts.HeaderLines {
 				header = append(header, byteString(data))
-				verifPoint("core.header", len(header))
-				eventBox.Set(EvtHeader, header)
+				headerUpdated.Set(true)
 				return false
 			}
 			item.text, item.colors = ansiProcessor(data)
@@ -134,8 +137,7 @@ func Run(opts *Options) (int, error) {
 			transformed := nthTransformer(tokens, itemIndex)
 			if len(header) < opts.HeaderLines {
 				header = append(header, transformed)
-				verifPoint("core.header", len(header))
-				eventBox.Set(EvtHeader, header)
+				headerUpdated.Set(true)
 				return false
 			}
 			item.text, item.colors = ansiProcessor(stringBytes(transformed))
@@ -173,7 +175,17 @@ func Run(opts *Options) (int, error) {
 	var reader *Reader
 	if !streamingFilter {
 		reader = NewReader(func(data []byte) bool {
-			return chunkList.Push(data)
+			pushed := chunkList.Push(data)
+			if headerUpdated.Get() {
+				// Not under the lock of the chunk list: the main loop takes a
+				// snapshot of the list while it holds the lock of the event box
+				chunkList.mutex.Lock()
+				headerUpdated.Set(false)
+				lines := header
+				chunkList.mutex.Unlock()
+				eventBox.Set(EvtHeader, lines)
+			}
+			return pushed
 		}, eventBox, executor, opts.ReadZero, opts.Filter == nil)
 
 		readyChan := make(chan bool)
